@@ -667,6 +667,105 @@ def canon(o):
     return json.dumps(o, sort_keys=True)
 
 
+LOADER_HEADER = """From Coq Require Import List String ZArith Bool.
+From SV Require Import Model.RunSpace Model.Loader Gen.LoaderGen.
+Import ListNotations. Open Scope string_scope.
+Definition I_ := VInt. Definition S_ := VStr.
+Definition cs : list lcase := [
+%s
+].
+Eval vm_compute in lbad impl cs 0.
+"""
+
+
+def loader_correspondence(ck, rng, specs, n):
+    """Model/Loader.v against _parse_run_space_block: run_space blocks written with a random subset of the optional members
+    (combine, max_runs, dry_run in many spellings, context, source.mode) left out -- whatever their value -- are parsed by
+    the implementation; the model reads the same raw block with the defaults the translator read from the source."""
+    from semantiva.configurations.load_pipeline_from_yaml import _parse_run_space_block
+    dry_spellings = [None, True, False, 1, 0, 2, "", "yes", "no", "null"]      # "null" stands for an explicit YAML null
+    lits, kept = [], []
+    pool = [sp for sp in specs if len(sp["blocks"]) <= 4]
+    for t in range(n):
+        sp = rng.choice(pool)
+        raw = {"blocks": []}
+        r_combine = None if rng.random() < 0.5 else sp["combine"]
+        r_max = None if rng.random() < 0.5 else sp["max_runs"]
+        dsp = rng.choice(dry_spellings)
+        if r_combine is not None:
+            raw["combine"] = r_combine
+        if r_max is not None:
+            raw["max_runs"] = r_max
+        if dsp is not None:
+            raw["dry_run"] = None if dsp == "null" else dsp
+        rblocks = []
+        for b in sp["blocks"]:
+            e = {"mode": b["mode"]}
+            ctx = None if (not b["context"] and rng.random() < 0.7) or rng.random() < 0.15 else b["context"]
+            if ctx is not None:
+                e["context"] = {k: list(v) for k, v in ctx}
+            src = None
+            if b["source"] is not None:
+                s = b["source"]
+                smode = None if rng.random() < 0.5 else s["mode"]
+                d = {"format": s["format"], "path": s["path"]}
+                if s["select"] is not None:
+                    d["select"] = list(s["select"])
+                if s["rename"]:
+                    d["rename"] = dict(map(tuple, s["rename"]))
+                if smode is not None:
+                    d["mode"] = smode
+                e["source"] = d
+                src = (s, smode)
+            raw["blocks"].append(e)
+            rblocks.append((b["mode"], ctx, src))
+        try:
+            cfg = _parse_run_space_block(raw)
+        except ValueError as ex:
+            if "Duplicate context key(s) across run_space blocks" in str(ex):
+                continue
+            ck.fail_input("C08:yaml-parse:rejected", "the loader rejects a well-formed run_space block: %s" % str(ex)[:200], {"kind": "raw-block", "block": raw})
+            continue
+        # literals: raw block, and what the implementation made of it (file contents are not read by the parser: [] on both sides)
+        def cq_rsrc(x):
+            s, smode = x
+            return "(mkRawSource [] %s %s %s)" % (cq_opt(s["select"], lambda l: cq_list(l, cq_str)),
+                                                  cq_list([cq_pair(cq_str(a), cq_str(b)) for a, b in s["rename"]]), cq_opt(smode, cq_mode))
+        ydry = {None: "None", True: "(Some (YBool true))", False: "(Some (YBool false))", "null": "(Some YNull)"}.get(dsp) if not isinstance(dsp, (int, str)) or isinstance(dsp, bool) or dsp == "null" \
+            else ("(Some (YInt %s))" % cq_Z(dsp) if isinstance(dsp, int) else "(Some (YStr %s))" % cq_str(dsp))
+        rawlit = "(mkRawSpec %s %s %s %s)" % (cq_opt(r_combine, cq_mode), cq_opt(r_max, cq_Z), ydry,
+                                              cq_list(["(mkRawBlock %s %s %s)" % (cq_mode(m), cq_opt(c, cq_cols), cq_opt(x, cq_rsrc)) for m, c, x in rblocks]))
+        try:
+            got_blocks = []
+            for bl in cfg.blocks:
+                srcl = "None"
+                if bl.source is not None:
+                    srcl = "(Some (mkSource [] %s %s %s))" % (cq_opt(bl.source.select, lambda l: cq_list(l, cq_str)),
+                                                             cq_list([cq_pair(cq_str(a), cq_str(b)) for a, b in bl.source.rename.items()]), cq_mode(bl.source.mode))
+                got_blocks.append("(mkBlock %s %s %s)" % (cq_mode(bl.mode), cq_cols(list(bl.context.items())), srcl))
+            gotlit = "(mkSpec %s %s %s, %s)" % (cq_mode(cfg.combine), cq_Z(cfg.max_runs), cq_list(got_blocks), "true" if cfg.dry_run is True else
+                                                ("false" if cfg.dry_run is False else "true (* non-bool dry_run %r *)" % (cfg.dry_run,)))
+        except (TypeError, KeyError) as ex:
+            ck.corr_problem("loader correspondence: the parsed configuration cannot be written as a model literal", repr(ex)[:300])
+            continue
+        lits.append("(%s, %s)" % (rawlit, gotlit))
+        kept.append(raw)
+    shards = [LOADER_HEADER % ";\n".join(lits[i:i + 150]) for i in range(0, len(lits), 150)]
+    per, errs = core.mismatches("C08_loader", shards, timeout=600)
+    for k, rc, out in errs:
+        ck.corr_problem("loader shard %d did not evaluate (rc=%s)" % (k, rc), out)
+    bad = []
+    for k, ls in enumerate(per):
+        if ls is not None:
+            bad += [kept[k * 150 + b] for b in ls[0]]
+    for raw in bad[:4]:
+        ck.corr_problem("Model/Loader.v (with the defaults read from the source) and _parse_run_space_block disagree on a run_space block",
+                        json.dumps(raw)[:1000], case={"block": raw})
+    ck.notes["loader_correspondence"] = {"blocks": len(kept), "disagreements": len(bad)}
+    ck.cov["evaluations"] = ck.cov.get("evaluations", 0) + len(kept)
+    ck.log("loader: %d/%d written run_space blocks read alike by Model/Loader.v and _parse_run_space_block" % (len(kept) - len(bad), len(kept)))
+
+
 # ----- the check ---------------------------------------------------------------------------------------------
 def run(ck):
     import logging
@@ -674,8 +773,8 @@ def run(ck):
     from harness.translate import run_all
     rng = random.Random(ck.seed * 104729 + 8)
     thorough = ck.tier == "thorough"
-    gen = run_all(["run_space"])
-    ck.build_models(["Model/RunSpace.v", "Gen/RunSpaceGen.v"])
+    gen = run_all(["run_space", "loader"])
+    ck.build_models(["Model/RunSpace.v", "Gen/RunSpaceGen.v", "Model/Loader.v", "Gen/LoaderGen.v"])
     proved = ck.prove(gen_results=gen)
     if thorough and proved:
         ck.coqchk()
@@ -843,6 +942,9 @@ def _run(ck, rng, thorough, facts, tmp):
         ck.corr_problem("correspondence shard %d did not evaluate (rc=%s)" % (k, rc), out)
     ck.cov["traces_validated_against_impl"] = agreed
     ck.log("correspondence: %d/%d agree; outcomes %s" % (agreed, len(usable), json.dumps(dist, sort_keys=True)))
+
+    # ---------- (7) the loader model against the loader
+    loader_correspondence(ck, rng, [sp for sp in specs if isinstance(sp, dict) and "blocks" in sp], 900 if thorough else 300)
 
     # ---------- (2) giants: subprocess, RLIMIT_AS, wall limit; only the max-runs error is acceptable
     giants = giants_corpus + giants_for(ck.tier)
